@@ -69,12 +69,36 @@ func (w *World) Clone() *World {
 		c.Objs[k] = cf
 	}
 	for k, v := range w.Vars {
-		c.Vars[k] = v
+		c.Vars[k] = cloneVar(v)
 	}
 	for k, v := range w.JSON {
 		c.JSON[k] = cloneJSON(v)
 	}
 	return c
+}
+
+// cloneVar copies a top-level variable; slices and maps get a backing store of their own.
+func cloneVar(v interface{}) interface{} {
+	rv := reflect.ValueOf(v)
+	switch rv.Kind() {
+	case reflect.Slice:
+		if rv.IsNil() {
+			return v
+		}
+		c := reflect.MakeSlice(rv.Type(), rv.Len(), rv.Len())
+		reflect.Copy(c, rv)
+		return c.Interface()
+	case reflect.Map:
+		if rv.IsNil() {
+			return v
+		}
+		c := reflect.MakeMapWithSize(rv.Type(), rv.Len())
+		for _, k := range rv.MapKeys() {
+			c.SetMapIndex(k, rv.MapIndex(k))
+		}
+		return c.Interface()
+	}
+	return v
 }
 
 // Dump renders the world canonically (equality and state keys).
